@@ -348,10 +348,19 @@ pub fn record_c10(out: &str, seed: u64, thorough: bool) {
     let mut nontrivial = 0u64;
     let mut samples = vec![];
     let mut accepted = 0u64;
+    let mut over_bound = 0u64;
     for (fi, (name, bytes)) in faults.iter().enumerate() {
         let mark = alloc_mark();
         let r = guarded(|| target.deserialize(bytes).is_ok());
         let peak = alloc_peak_since(mark);
+        if peak > 67108864 + 4096 * bytes.len() {
+            over_bound += 1;
+        }
+        if over_bound > 8 {
+            // the property is already violated several times over; huge allocations make every further
+            // fault take seconds, so the enumeration stops here (the violations are in the trace)
+            break;
+        }
         let result = match &r {
             Ok(true) => "ok",
             Ok(false) => "err",
